@@ -61,6 +61,20 @@ func (r *Run) arbitraryB(name string, t types.Type, depth int, small bool) value
 			s[i] = r.arbitraryB(fmt.Sprintf("%s[%d]", name, i), tt.Elem(), depth+1, small)
 		}
 		return s
+	case *types.Array:
+		// an array is a value: every element is arbitrary
+		a := make(array, int(tt.Len()))
+		for i := range a {
+			a[i] = r.arbitraryB(fmt.Sprintf("%s[%d]", name, i), tt.Elem(), depth+1, small)
+		}
+		return a
+	case *types.Map:
+		// a map operand is nil or an empty map of its own (assignment shares it; nil-ness is what
+		// deep equality observes)
+		if r.memoBranch(name + "?") {
+			return &mapV{keyT: tt.Key(), elemT: tt.Elem()}
+		}
+		return (*mapV)(nil)
 	}
 	return zero(t)
 }
